@@ -21,6 +21,7 @@ type workCase struct {
 	Initial []int   `json:"initial"`
 	Succ    [][]int `json:"succ"`   // successors added while processing item i
 	Yields  []int   `json:"yields"` // explicit yields inside f(i), before the Adds
+	After   []int   `json:"after,omitempty"` // explicit yields inside f(i) after its Adds (f is still in progress then)
 	Mode    string  `json:"mode"`   // seq | pct
 	// Items optionally gives the value used for item i: "" or "int" = the int i, "nil" = a nil item,
 	// "string" = a string, "struct" = a comparable struct (all valid map keys).
@@ -163,6 +164,11 @@ func run(c workCase, strat sched.Strategy, trace bool) outcome {
 					wokenByAdd = true
 				}
 			}
+			if i < len(c.After) {
+				for k := 0; k < c.After[i]; k++ {
+					sched.Yield()
+				}
+			}
 			inflight--
 		})
 		doReturned = true
@@ -255,11 +261,13 @@ func checkWork(c workCase) *vt.Fail {
 
 func genGraph(t *rapid.T, c *workCase) {
 	items := rapid.IntRange(1, 10).Draw(t, "items")
-	c.N = rapid.IntRange(1, 5).Draw(t, "n")
-	c.Initial = rapid.SliceOfN(rapid.IntRange(0, items-1), 1, 3).Draw(t, "initial")
+	c.N = rapid.IntRange(1, 6).Draw(t, "n")
+	// up to 8 items queued before Do (more than n: the start-up of the runners overlaps with Adds made by the first calls of f)
+	c.Initial = rapid.SliceOfN(rapid.IntRange(0, items-1), 1, 8).Draw(t, "initial")
 	for i := 0; i < items; i++ {
 		c.Succ = append(c.Succ, rapid.SliceOfN(rapid.IntRange(0, items-1), 0, 3).Draw(t, "succ"))
 		c.Yields = append(c.Yields, rapid.IntRange(0, 3).Draw(t, "yields"))
+		c.After = append(c.After, rapid.IntRange(0, 2).Draw(t, "after"))
 	}
 	if rapid.IntRange(0, 2).Draw(t, "typed") == 0 {
 		nilAt := -1
@@ -324,13 +332,19 @@ var smallGraphs = []workCase{
 	{Initial: []int{0}, Succ: [][]int{{1, 2}, {3}, {3}, {}}},                                    // diamond
 	{Initial: []int{0}, Succ: [][]int{{1}, {}}, Items: []string{"nil", "string"}},               // a nil item first
 	{Initial: []int{0}, Succ: [][]int{{1, 2}, {}, {}}, Items: []string{"struct", "nil", "int"}}, // a nil item added from inside f
+	{Initial: []int{0, 1, 2}, Succ: [][]int{{3}, {4}, {}, {}, {}}},                              // as many queued items as runners, the first calls add more
+	{Initial: []int{0, 1, 2, 3}, Succ: [][]int{{4}, {}, {}, {}, {}}},                            // more queued items than runners
 }
 
 func checkExhaustive(c exCase) *vt.Fail {
 	if !valid(c.workCase) {
 		return nil
 	}
-	e := &sched.Exhaustive{MaxPreempt: c.MaxPreempt, Budget: 400000}
+	budget := 400000
+	if !vt.Thorough() && len(c.Initial) >= 3 {
+		budget = 20000 // the wide start-up graphs have millions of schedules: the quick tier samples a prefix of the enumeration
+	}
+	e := &sched.Exhaustive{MaxPreempt: c.MaxPreempt, Budget: budget}
 	for e.Next() {
 		o := run(c.workCase, e, false)
 		if o.stuck {
@@ -370,8 +384,12 @@ func TestExhaustive(t *testing.T) {
 				c := exCase{workCase: g, MaxPreempt: maxP}
 				c.N = n
 				c.Yields = make([]int, len(g.Succ))
+				c.After = make([]int, len(g.Succ))
 				for i := range c.Yields {
 					c.Yields[i] = y
+					if vt.Thorough() || len(g.Initial) >= 3 {
+						c.After[i] = y // f keeps running after its Adds
+					}
 				}
 				before := exRuns
 				ok := vt.CheckOne(rec, "exhaustive", c, checkExhaustive)
